@@ -19,7 +19,7 @@ impl Check for C06 {
          distinct = distinct serialized case".into()
     }
     fn cases(tier: Tier) -> u32 {
-        tier.pick(4000, 40000)
+        tier.pick(6400, 48000)
     }
     fn strategy(tier: Tier) -> BoxedStrategy<History> {
         history_strategy(HistParams {
